@@ -472,7 +472,7 @@ class QueryTimeout(Exception):
     pass
 
 
-QUERY_LIMIT_S = 10.0
+QUERY_LIMIT_S = 20.0   # CPU seconds of this process (ITIMER_VIRTUAL): waiting for a busy machine does not count
 _WATCHDOG = {"on": False, "timeouts": 0}
 
 
@@ -489,7 +489,7 @@ def arm_watchdog():
     import multiprocessing
     import signal
     if multiprocessing.current_process().name != "MainProcess":
-        signal.signal(signal.SIGALRM, _on_query_alarm)
+        signal.signal(signal.SIGVTALRM, _on_query_alarm)
         _WATCHDOG["on"] = True
 
 
@@ -499,11 +499,11 @@ def timed(thunk):
     if not _WATCHDOG["on"]:
         return thunk()
     import signal
-    signal.setitimer(signal.ITIMER_REAL, QUERY_LIMIT_S)
+    signal.setitimer(signal.ITIMER_VIRTUAL, QUERY_LIMIT_S)
     try:
         return thunk()
     finally:
-        signal.setitimer(signal.ITIMER_REAL, 0)
+        signal.setitimer(signal.ITIMER_VIRTUAL, 0)
 
 
 def impl_query(sdn, f, obj, rec, sel, ids):
@@ -825,7 +825,7 @@ def check_c11(res, sess, recipe, rng, tier_scale, edits=None, tag="gen"):
         try:
             iv, iu = timed(lambda: (bool(h.is_valid), bool(h.is_unique)))
         except QueryTimeout:
-            res.spec_failure("HRef.is_valid-or-is_unique.does-not-return", inp, "no answer within %ss" % QUERY_LIMIT_S)
+            res.spec_failure("HRef.is_valid-or-is_unique.does-not-return", inp, "no answer within %s CPU seconds" % QUERY_LIMIT_S)
             continue
         ev = k in valid_set
         eu = ev and len(elab.ends.get(k[0], [])) == 1
